@@ -852,7 +852,7 @@ fn main() {
 
     let small = args.tier == "miri" || args.tier == "tsan";
     // random curves; each is run through three entry points (direct, asset, position)
-    let n_curves = if small { 11 } else { args.size(5_000, 1_000_000) };
+    let n_curves = if small { 11 } else { args.size(5_000, 2_500_000) };
     let max_len = if small { 8 } else { N_MAX };
     let (alpha, exh_len) = if small { (3u64, 3usize) } else if args.is_thorough() { (4, 8) } else { (4, 6) };
     // log a strided subset of the random curves (<= ~1500 curves = 4500 runs) plus the short exhaustive ones
